@@ -18,6 +18,17 @@ DICT_METHODS = {'get', 'items', 'keys', 'values', 'update', 'setdefault', 'pop',
 SET_METHODS = {'add', 'update', 'clear', 'discard', 'remove', 'copy'}
 
 
+def seq_nth(s, k, depth=0):
+    """s[k]; for s = a ++ [x] the equal term  k < |a| ? a[k] : (k == |a| ? x : s[k]), so that what is known about the
+    elements of a applies to the extended sequence without the solver having to unfold the concatenation"""
+    if depth < 4 and z3.is_app(s) and s.decl().kind() == z3.Z3_OP_SEQ_CONCAT and s.num_args() == 2:
+        a, u = s.arg(0), s.arg(1)
+        if z3.is_app(u) and u.decl().kind() == z3.Z3_OP_SEQ_UNIT:
+            x = u.arg(0)
+            return z3.If(z3.And(k >= 0, k < z3.Length(a)), seq_nth(a, k, depth + 1), z3.If(k == z3.Length(a), x, s[k]))
+    return s[k]
+
+
 class IterV:
     """Python-side description of an iterable: length term + element function."""
 
@@ -90,6 +101,8 @@ class FnCtx:
         self.pre_env = None
         self.pre_alloc = None
         self.abstract_log = []     # [(label, outcome, value)]
+        self.stmt_lines = {}       # id(statement node of the verified function) -> line
+        self.covered = set()       # lines of statements this path executed
 
 
 class Interp:
@@ -1241,6 +1254,18 @@ class Interp:
             seq = V.uf('str_splitlines', V.S, SeqVal)(s)
             return SeqV(seq) if self.pure else self.st.new_list(seq)
         if name == 'format':
+            # constant template with plain positional `{}` fields only: the pieces joined with str() of the arguments
+            tmpl = z3.simplify(s)
+            if z3.is_string_value(tmpl) and not kwargs:
+                import re as _re
+                text = tmpl.as_string()
+                pieces = _re.split(r'\{\}', text)
+                if '{' not in ''.join(pieces) and '}' not in ''.join(pieces) and len(pieces) - 1 <= len(av):
+                    parts = [z3.StringVal(pieces[0])]
+                    for a, piece in zip(av, pieces[1:]):
+                        parts.append(self.str_term(a))
+                        parts.append(z3.StringVal(piece))
+                    return Val.s(z3.Concat(*parts) if len(parts) > 1 else parts[0])
             raise Unsupported('str.format')
         raise Unsupported('str.%s' % name)
 
@@ -1268,7 +1293,8 @@ class Interp:
         st = self.st
         items = st.items(ref)
         if name == 'append':
-            st.set_items(ref, z3.Concat(items, z3.Unit(self.to_val(args[0]))))
+            x = self.to_val(args[0])
+            st.set_items(ref, z3.Concat(items, z3.Unit(x)))
             return V.NONE
         if name == 'extend':
             st.set_items(ref, z3.Concat(items, self.seq_of_value(args[0])))
@@ -1638,7 +1664,7 @@ class Interp:
     def spec_item(self, node):
         v = self.to_val(self.ev(node.args[0]))
         k = num_int(self.to_val(self.ev(node.args[1])))
-        return self.st.sel(self.heap.get('list'), Val.ref(v))[k]
+        return seq_nth(self.st.sel(self.heap.get('list'), Val.ref(v)), k)
 
     def spec_nkeys(self, node):
         v = self.to_val(self.ev(node.args[0]))
@@ -1865,6 +1891,8 @@ class Interp:
 
     def exec(self, node):
         self.st.cur_line = getattr(node, 'lineno', None)
+        if self.fn is not None and id(node) in self.fn.stmt_lines:
+            self.fn.covered.add(self.fn.stmt_lines[id(node)])
         m = getattr(self, 'x_' + type(node).__name__, None)
         if m is None:
             raise Unsupported('statement %s at line %s' % (type(node).__name__, getattr(node, 'lineno', '?')))
